@@ -7,8 +7,8 @@ package pubsub
 // every event.
 
 import (
-	"fmt"
 	"context"
+	"fmt"
 	"math"
 	"net"
 	"sort"
@@ -189,13 +189,13 @@ type refRecord struct {
 	topic     string
 }
 type refModel struct {
-	P      *PeerScoreParams
-	peers  map[int]*refPeer
-	ipOf   map[int]string
-	ipSet  map[string]map[int]bool
-	app    map[int]float64
-	wl     []*net.IPNet
-	now    func() time.Duration
+	P     *PeerScoreParams
+	peers map[int]*refPeer
+	ipOf  map[int]string
+	ipSet map[string]map[int]bool
+	app   map[int]float64
+	wl    []*net.IPNet
+	now   func() time.Duration
 }
 
 func (m *refModel) topicStats(p *refPeer, t string) *refTopic {
